@@ -1,0 +1,73 @@
+//go:build verif
+
+package timeheap
+
+// Contracts for TimeHeap (property C12: reports the windowed sum of what was added and not
+// cleared), read by the verification machinery in /verif. Comment-only file.
+//
+// Ghost state per heap (keyed by the address of the timeHeap slice): sumOf = sum of the counts of
+// the entries in the heap, lenOf = their number. container/heap and the heap's own Push/Pop are
+// assumed to keep them (assume-func: the sum over a slice is not first-order expressible); what
+// is proved is TimeHeap's own accounting: total equals the sum of the counts in the heap at every
+// release of the lock.
+
+/*@
+global sumOf IntArr
+global-invariant forall a Int :: sel(sumOf, a) >= 0
+
+assume-func container/heap.Push(h, x)
+  requires typeof(x) == typeid(*timeHeapEntry)
+  modifies ghost(sumOf), *unbox(*timeHeap, h), allelems(*timeHeapEntry)
+  ensures sumOf == upd(old(sumOf), unbox(*timeHeap, h), sel(old(sumOf), unbox(*timeHeap, h)) + unbox(*timeHeapEntry, x).count)
+  ensures len(*unbox(*timeHeap, h)) == old(len(*unbox(*timeHeap, h))) + 1
+
+assume-func container/heap.Pop(h) (r)
+  requires len(*unbox(*timeHeap, h)) > 0
+  modifies ghost(sumOf), *unbox(*timeHeap, h), allelems(*timeHeapEntry)
+  ensures r != nil && typeof(r) == typeid(*timeHeapEntry) && unbox(*timeHeapEntry, r) != nil
+  ensures sumOf == upd(old(sumOf), unbox(*timeHeap, h), sel(old(sumOf), unbox(*timeHeap, h)) - unbox(*timeHeapEntry, r).count)
+  ensures len(*unbox(*timeHeap, h)) == old(len(*unbox(*timeHeap, h))) - 1
+  ensures len(*unbox(*timeHeap, h)) == 0 ==> sel(sumOf, unbox(*timeHeap, h)) == 0
+  ensures sel(sumOf, unbox(*timeHeap, h)) >= 0
+
+assume-func container/heap.Init(h)
+  modifies *unbox(*timeHeap, h), allelems(*timeHeapEntry)
+
+assume-func time.Now() (r)
+  ensures true
+assume-func time.Since(t) (r)
+  ensures true
+assume-func time.Duration.Seconds(d) (r)
+  ensures true
+
+func timeHeap.Len
+  ensures r0 == len(h)
+
+-- the heap's own Pop, called directly by Clear (assumed to keep the ghost sum like heap.Pop)
+assume-func github.com/iotaledger/hive.go/ds/timeheap.timeHeap.Pop(h) (r)
+  requires h != nil && len(*h) > 0
+  modifies ghost(sumOf), *h, allelems(*timeHeapEntry)
+  ensures len(*h) == old(len(*h)) - 1
+  ensures r != nil && typeof(r) == typeid(*timeHeapEntry) && unbox(*timeHeapEntry, r) != nil
+  ensures sumOf == upd(old(sumOf), h, sel(old(sumOf), h) - unbox(*timeHeapEntry, r).count)
+  ensures len(*h) == 0 ==> sel(sumOf, h) == 0
+  ensures sel(sumOf, h) >= 0
+
+type TimeHeap
+  monitor lock guards total, heap, global:sumOf
+  invariant forall a Int :: sel(sumOf, a) >= 0
+  invariant self.total == sel(sumOf, addr(self.heap))                 -- total = sum of the counts in the heap
+  invariant len(self.heap) == 0 ==> sel(sumOf, addr(self.heap)) == 0
+
+func TimeHeap.Add
+  requires h != nil && h.lock != nil && unlocked(*h.lock)
+  modifies h.total, h.heap, ghost(sumOf), allelems(*timeHeapEntry)
+  opt assume-no-overflow                                -- assumption: the 64-bit total does not wrap
+  ensures unlocked(*h.lock)
+
+func TimeHeap.Clear
+  requires h != nil && h.lock != nil && unlocked(*h.lock)
+  modifies h.total, h.heap, ghost(sumOf), allelems(*timeHeapEntry)
+  loop 1 invariant held(*h.lock) && (forall a Int :: sel(sumOf, a) >= 0) && (len(h.heap) == 0 ==> sel(sumOf, addr(h.heap)) == 0)
+  ensures unlocked(*h.lock)
+@*/
